@@ -79,6 +79,61 @@ class MNode:
     m.tags = {k: set(v) for k, v in self.tags.items()}
     return m
 
+  # ---- storing (TaggedValue expansion lives here) ------------------------
+  def _store(self, key, value):
+    """Stores value under storage key (name, or int for positional-only /
+    *args positions).  A TaggedValue is expanded into tags + optional value."""
+    if isinstance(value, MNode) and value.btype == 'TaggedValueCls':
+      tv_tags = value.tags.get('value', set())
+      if tv_tags:
+        self.tags.setdefault(key, set()).update(tv_tags)
+      if 'value' not in value.named:
+        return
+      value = value.named['value']
+    if isinstance(key, str):
+      self.named[key] = value
+    elif key < self.sv.P:
+      self.pos[key] = value
+    else:
+      j = key - self.sv.P
+      if j < len(self.tail):
+        self.tail[j] = value
+      elif j == len(self.tail):
+        self.tail.append(value)
+      else:
+        raise AssertionError('model: hole in *args')
+
+  # ---- tags ---------------------------------------------------------------
+  def tag_key(self, arg):
+    sv = self.sv
+    if isinstance(arg, str):
+      if not self.can_setattr(arg):
+        raise Invalid('bad tag argument name')
+      return arg
+    if arg < 0:
+      raise Invalid('negative index')
+    if sv.va is None and arg >= sv.P:
+      raise Invalid('index out of range')
+    if arg < sv.P and sv.prefix[arg].name in sv.pk:
+      return sv.prefix[arg].name
+    return arg
+
+  def add_tag(self, arg, tag):
+    self.tags.setdefault(self.tag_key(arg), set()).add(tag)
+
+  def remove_tag(self, arg, tag):
+    k = self.tag_key(arg)
+    if tag not in self.tags.get(k, ()):
+      raise Invalid('tag not set')
+    self.tags[k].discard(tag)
+
+  def clear_tags(self, arg):
+    self.tags[self.tag_key(arg)] = set()
+
+  def set_tags(self, arg, tags):
+    k = self.tag_key(arg)
+    self.tags[k] = set(tags)
+
   # ---- construction ------------------------------------------------------
   def bind(self, args, kwargs):
     """Constructor binding: Python's own bind_partial decides."""
@@ -88,13 +143,15 @@ class MNode:
       raise Invalid(str(e)) from None
     for name, value in ba.arguments.items():
       if name == self.sv.va:
-        self.tail = list(value)
+        for j, v in enumerate(value):
+          self._store(self.sv.P + j, v)
       elif name == self.sv.vk:
-        self.named.update(value)
+        for n, v in value.items():
+          self._store(n, v)
       elif name in self.sv.po:
-        self.pos[self.sv.index_of[name]] = value
+        self._store(self.sv.index_of[name], value)
       else:
-        self.named[name] = value
+        self._store(name, value)
 
   # ---- reads -------------------------------------------------------------
   def slot(self, i):
@@ -142,7 +199,7 @@ class MNode:
   def setattr(self, name, value):
     if not self.can_setattr(name):
       raise Invalid('bad name')
-    self.named[name] = value
+    self._store(name, value)
 
   def delattr(self, name):
     if name not in self.named:
@@ -152,12 +209,9 @@ class MNode:
   def _set_index(self, i, value):
     if i < self.sv.P:
       p = self.sv.prefix[i]
-      if p.name in self.sv.po:
-        self.pos[i] = value
-      else:
-        self.named[p.name] = value
+      self._store(i if p.name in self.sv.po else p.name, value)
     else:
-      self.tail[i - self.sv.P] = value
+      self._store(i, value)
 
   def _unset_index(self, i):
     p = self.sv.prefix[i]
@@ -366,8 +420,13 @@ class Maker:
         if 'value' in tv:
           kw['default'] = self(tv['value'])
         return fdl.TaggedValue(tags=[stubmod.TAGS[t] for t in tv['tags']], **kw)
-      return MTagged(set(tv['tags']), 'value' in tv,
-                     self(tv['value']) if 'value' in tv else None)
+      from fiddle._src import config as _cfg
+      node = MNode('TaggedValueCls', _cfg.tagged_value_fn,
+                   self.svs.setdefault('__tv__', SigView(_cfg.tagged_value_fn)))
+      if 'value' in tv:
+        node.named['value'] = self(tv['value'])
+      node.tags['value'] = set(tv['tags'])
+      return node
     if 'node' in d:
       nd = d['node']
       args = [self(a) for a in nd.get('args', [])]
@@ -411,6 +470,10 @@ def model_build(v, memo, flags=None):
       out = v.fn(*args, **kwargs)
     elif v.btype == 'Partial':
       out = functools.partial(v.fn, *args, **kwargs)
+    elif v.btype == 'TaggedValueCls':
+      if 'value' not in kwargs:
+        raise Unformable('TaggedValue without a value')
+      return kwargs['value']
     else:
       raise NotImplementedError(v.btype)
   elif isinstance(v, list):
